@@ -9,9 +9,11 @@ import BfeVerif.C09.Model
                                                         subspec = sname "~" [backend ("," backend)*] ; backend = name "@" addr "@" port "@" weight
   events  = "-" | ev ("," ev)*                          ev = (d|u|f|c) "^" cname "^" sname "^" addr "^" port   (applied after the reload and after the listing,
                                                         to the first backend of that sub-cluster with that address: SetAvail(false/true), AddFailNum, IncConnNum)
-  result  = per step  (`initfail` ends the case when BalTable.Init fails in gslbInit)  status "#" table "#" grave "#" sel   (see `showStep`); a panic ends the case with `panic`.
-  `sel` (backends returned by Balance probes) is not predicted by the model: it is copied from the implementation's
-  line and judged by the oracle only (selected ⊆ reachable, unreleased, available).
+  result  = per step  status#table#grave#sel#fresh  (`initfail` ends the case when BalTable.Init fails in gslbInit)  status "#" table "#" grave "#" sel   (see `showStep`); a panic ends the case with `panic`.
+  `sel` (set of backends returned by the Balance probes of the harness) and `fresh` (the same probes on a NEW BalTable
+  loaded with the same configuration) are not predicted by the model: they are copied from the implementation's line and
+  judged by the oracle: sel = exactly the available backends of the positive-weight sub-clusters (classes
+  added-not-selectable, drained-still-selected, selected-not-selectable) and sel = fresh (differs-from-fresh-load).
 -/
 namespace BfeVerif.C09
 open BfeVerif.Proto
@@ -142,7 +144,7 @@ def sameMultiset (a b : List String) : Bool :=
 
 /-- judge one step of the implementation: `prev` = implementation's table before the step (after events) -/
 def judgeStep (stp : Step) (prev : List Cluster) (prevGrave : List Backend) (status : String) (tbl : List Cluster) (grave : List Backend)
-    (sel : List String) (hadGslbErr : Bool) : Option String :=
+    (sel fresh : List String) (hadGslbErr : Bool) : Option String :=
   if status == "panic" then some (if hadGslbErr then "reload-err-double-release" else "double-release")
   else
   let objs := tbl.flatMap fun c => c.subs.flatMap (·.backs)
@@ -197,14 +199,37 @@ def judgeStep (stp : Step) (prev : List Cluster) (prevGrave : List Backend) (sta
     !(prevGrave.any fun x => x.key == b.key && x.name == b.name && x.avail == b.avail && x.failNum == b.failNum && x.connNum == b.connNum)
   if persistReleased then some "persisting-backend-released"
   else
-  -- selection probes
-  let badSel := sel.any fun e =>
-    match e.splitOn "," with
-    | [cn, sn, a, p, cl] =>
-      cl == "1" || !(((tbl.find? (·.name == cn)).bind fun c => c.subs.find? (·.name == sn)).map
-        (·.backs.any fun b => b.key == a ++ ":" ++ p && b.avail && b.weight > 0)).getD false
-    | _ => true
-  if badSel then some "selected-not-selectable" else none
+  -- selection probes: the harness enumerates what Balance returns (client addresses covering every residue of the
+  -- sub-cluster hash, one full round-robin cycle each).  Spec: exactly the available positive-weight backends of the
+  -- positive-weight, non-blackhole sub-clusters; when such a sub-cluster has nothing selectable, Balance may also
+  -- cross-retry into any non-blackhole sub-cluster of weight >= 0.
+  let dedup := fun (l : List String) => l.foldl (fun acc x => if acc.contains x then acc else acc ++ [x]) []
+  let selOf := fun (l : List String) (cn : String) => dedup (l.filter fun e => (e.splitOn ",").headD "" == cn)
+  let verdictSel := tbl.findSome? fun c =>
+    let selectable := fun (sb : Sub) => sb.backs.filter fun b => b.avail && b.weight > 0 && b.released == 0
+    let entry := fun (sb : Sub) (b : Backend) => ",".intercalate [c.name, sb.name, b.addr, toString b.port, "0"]
+    let pos := c.subs.filter fun sb => sb.weight > 0 && sb.name != "GSLB_BLACKHOLE"
+    let cross := pos.any fun sb => (selectable sb).isEmpty
+    let crossSubs := c.subs.filter fun sb => sb.weight ≥ 0 && sb.name != "GSLB_BLACKHOLE"
+    let expected := dedup (pos.flatMap fun sb => (selectable sb).map (entry sb))
+    let allowed := if cross then dedup (crossSubs.flatMap fun sb => (selectable sb).map (entry sb)) else expected
+    let got := selOf sel c.name
+    match got.find? (fun e => !allowed.contains e) with
+    | some e =>
+      let sn := (e.splitOn ",").getD 1 ""
+      let drained := match c.subs.find? (·.name == sn) with
+        | some sb => (sb.weight ≤ 0 || sb.name == "GSLB_BLACKHOLE") && (selectable sb).any (fun b => entry sb b == e)
+        | none => false
+      some (if drained then "drained-still-selected" else "selected-not-selectable")
+    | none =>
+      if expected.any (fun e => !got.contains e) then some "added-not-selectable"
+      else
+        -- differential: a fresh load of the same configuration must select the same set
+        let rejected := decide (confTotal ((stp.g.lookup c.name).getD []) ≤ 0)
+        if !cross && !rejected && !sameMultiset got (selOf fresh c.name) then some "differs-from-fresh-load" else none
+  match verdictSel with
+  | some v => some v
+  | none => if sel.any (fun e => (tbl.find? (·.name == (e.splitOn ",").headD "")).isNone) then some "selected-not-selectable" else none
 
 structure Acc where
   st : St := {}
@@ -230,14 +255,14 @@ def run (op impl : String) : Ans :=
         let r := if stp.kind == "I" then balTableInit stp.g stp.bc else balTableReload a.st stp.g stp.bc
         let implS := impls.headD ""
         let f := implS.splitOn "#"
-        let selStr := f.getD 3 "-"
+        let selStr := f.getD 3 "-" ++ "#" ++ f.getD 4 "-"
         if stp.kind == "I" && r.gslbErr then
           -- BalTable.Init returned the gslbInit error before backendInit: the server does not start, the history ends
           let v := a.verdict.orElse fun _ => if implS == "initfail" then none else some "unparsable"
           { a with out := a.out ++ ["initfail"], stop := true, verdict := v, tags := addTag "init-fail" a.tags }
         else if panicked r.st then
           let v := a.verdict.orElse fun _ =>
-            if implS == "panic" then judgeStep stp a.implPrev a.implGrave "panic" [] [] [] r.gslbErr else some "unparsable"
+            if implS == "panic" then judgeStep stp a.implPrev a.implGrave "panic" [] [] [] [] r.gslbErr else some "unparsable"
           { a with out := a.out ++ ["panic"], stop := true, verdict := v, tags := addTag "panic" a.tags }
         else
           let st' := stp.evts.foldl applyEvt r.st
@@ -245,12 +270,12 @@ def run (op impl : String) : Ans :=
           let line := status ++ "#" ++ showTable r.st ++ "#" ++ showGrave r.st ++ "#" ++ selStr
           let (v, prev', grave') :=
             match f with
-            | [s, t, g, sl] =>
+            | [s, t, g, sl, fr] =>
               match parseImplTable t, parseObjs g with
               | some tbl, some gr =>
                 -- the listing is taken right after the reload; the step's events are then applied to the
                 -- implementation's own listing to obtain the `prev` the next step's survivors are compared with
-                (judgeStep stp a.implPrev a.implGrave s tbl gr (splitNE sl ";") r.gslbErr,
+                (judgeStep stp a.implPrev a.implGrave s tbl gr (splitNE sl ";") (splitNE fr ";") r.gslbErr,
                  (stp.evts.foldl applyEvt { clusters := tbl }).clusters, gr)
               | _, _ => (some "unparsable", a.implPrev, a.implGrave)
             | _ => (some (if implS == "panic" then "double-release" else "unparsable"), a.implPrev, a.implGrave)
